@@ -298,8 +298,10 @@ class SMat(Model):
         self.data[k] = value
 
 
-def unit_solve_sylvester_2nd_quant(rows, cols, same_block, timeout_ms=20000):
-    """solve_sylvester_2nd_quant/solve_sylvester: which scalar problem fills which entry."""
+def unit_solve_sylvester_2nd_quant(rows, cols, same_block, zero_block=None, timeout_ms=20000):
+    """solve_sylvester_2nd_quant/solve_sylvester: which scalar problem fills which entry.
+    zero_block in (None, 'row', 'col'): that block of H_0 is identically zero (its list of energies is empty on entry): its energies are zeros, as many as the right-hand side
+    has rows (row block) resp. COLUMNS (column block)."""
     inner = frontend.find(MODULE, "solve_sylvester_2nd_quant/solve_sylvester")
 
     def harness(eng):
@@ -307,7 +309,8 @@ def unit_solve_sylvester_2nd_quant(rows, cols, same_block, timeout_ms=20000):
         nblocks = 2
         b0 = 0
         b1 = 0 if same_block else 1
-        eigs = STup([STup([T(f"E{b}_{a}") for a in range(rows if b == b0 else cols)], None, True) for b in range(nblocks)], None, True)
+        empty = {"row": b0, "col": b1}.get(zero_block)
+        eigs = STup([STup([] if b == empty else [T(f"E{b}_{a}") for a in range(rows if b == b0 else cols)], None, True) for b in range(nblocks)], None, True)
         if same_block and rows != cols:
             raise Unsupported("diagonal block must be square")
         Y = SMat(rows, cols, lambda i, j: T(f"Y[{i},{j}]"))
@@ -331,13 +334,23 @@ def unit_solve_sylvester_2nd_quant(rows, cols, same_block, timeout_ms=20000):
                             "sympy": Namespace("sympy", {"zeros": Builtin("sympy.zeros", zeros), "S": Namespace("S", {"Zero": 0})})})
         env = Env(None, {"eigs": eigs})
         yarg = ZERO if eng.branch(y_zero) else Y
-        res = eng.call(Closure(inner, env, "solve_sylvester"), [yarg, STup([b0, b1, SI(eng.fresh("order"))])], {})
+        try:
+            res = eng.call(Closure(inner, env, "solve_sylvester"), [yarg, STup([b0, b1, SI(eng.fresh("order"))])], {})
+        except PyRaise as pr:
+            return eng.oblige("a-right-hand-side-of-the-blocks'-shape-is-solved-without-an-exception", z3.BoolVal(False), detail=f"raised {pr.exc.cls}{pr.exc.args}")
         if yarg is ZERO:
             return eng.oblige("zero-rhs-gives-zero", z3.BoolVal(res is ZERO and not calls))
         ok = len(out) == 1 and res is out[0] and (res.rows, res.cols) == (rows, cols)
         eng.oblige("returns-a-new-matrix-of-the-shape-of-the-rhs", z3.BoolVal(ok))
         if not ok:
             return
+        if zero_block is not None:
+            # the energies of the zero block are now known: zeros, one per level of that block
+            want_len = rows if empty == b0 else cols
+            got = eng.as_seq(eigs.items[empty]).items
+            eng.oblige("zero-block:energies-are-zeros-one-per-level-of-that-block", z3.BoolVal(len(got) == want_len and all(isinstance(x, int) and x == 0 for x in got)), detail=repr(got))
+            if len(got) != want_len:
+                return
         for i in range(rows):
             for j in range(cols):
                 v = res.data[(i, j)]
@@ -349,7 +362,7 @@ def unit_solve_sylvester_2nd_quant(rows, cols, same_block, timeout_ms=20000):
                     want = T("USub", T(".adjoint", low))
                     eng.oblige(f"entry[{i},{j}]-above-the-diagonal-of-a-diagonal-block-is-minus-adjoint-of-the-transposed-entry", term_eq(eng, v, want), detail=repr(v)[:200])
         eng.oblige("rhs-not-modified", z3.BoolVal(not Y.writes))
-    return run_unit(f"second_quantization:solve_sylvester_2nd_quant/solve_sylvester[{rows}x{cols},{'diagonal block' if same_block else 'off-diagonal block'}]", harness,
+    return run_unit(f"second_quantization:solve_sylvester_2nd_quant/solve_sylvester[{rows}x{cols},{'diagonal block' if same_block else 'off-diagonal block'}{',zero ' + zero_block + ' block' if zero_block else ''}]", harness,
                     functions=[(MODULE, "solve_sylvester_2nd_quant/solve_sylvester")], timeout_ms=timeout_ms)
 
 
